@@ -194,10 +194,18 @@ def normal_shape(sh):
     return out
 
 
+BY_VALUE = ['anylist', 'any', 'anydict']      # dump side only: annotation `list` / `Any` / `Dict[str, Any]`
+
+
 def factors(engine, rng, n_random_shapes):
     shapes = [list(s) for s in FIXED_SHAPES]
-    while len(shapes) < len(FIXED_SHAPES) + n_random_shapes:
-        sh = normal_shape([rng.choice(SHAPE_ATOMS) for _ in range(rng.choice([2, 3, 3, 4]))])
+    atoms = SHAPE_ATOMS
+    if engine == 'dump':
+        shapes += [['anylist'], ['any'], ['anydict'], ['anylist', 'mid'], ['mid', 'anydict'], ['list', 'any']]
+        atoms = SHAPE_ATOMS + BY_VALUE
+    n_fixed = len(shapes)
+    while len(shapes) < n_fixed + n_random_shapes:
+        sh = normal_shape([rng.choice(atoms) for _ in range(rng.choice([2, 3, 3, 4]))])
         if sh not in shapes:
             shapes.append(sh)
     f = {}
@@ -215,6 +223,7 @@ def factors(engine, rng, n_random_shapes):
     f['history'] = ['none', 'none', 'nested_dump', 'nested_load', 'other_root_dump', 'other_root_load']
     f['other'] = ['nometa', 'opposite', 'same']
     f['doc_type'] = ['dict', 'OrderedDict', 'defaultdict', 'subclass']
+    f['root_steps'] = [0, 0, 1, 2]            # root Meta bound in one step / split in two with a use of the other engine in between
     f['shape'] = list(range(len(shapes)))
     return f, shapes
 
@@ -312,6 +321,22 @@ def mk_config(engine, f, shapes, row, rng, bvals):
         # noticed, not C12: a CatchAll field with a default under Meta.skip_defaults_if dumps with NameError `_default_i`
         cfg['catchall'] = False
     cfg['history'] = lv['history']
+    if lv['root_steps'] and cfg['root']:
+        keys = [k for k in cfg['root'] if k != 'v1']
+        if keys:
+            rng2 = __import__('random').Random(json.dumps([cfg['root'], lv['root_steps'], shape], sort_keys=True))
+            later = set(rng2.sample(keys, rng2.randrange(1, len(keys) + 1))) if lv['root_steps'] == 1 else set(keys)
+            part1 = {k: v for k, v in cfg['root'].items() if k not in later}
+            if lv['root_steps'] == 2 and rng2.random() < 0.5:
+                # the later binding OVERRIDES a value of the first one
+                for k in keys:
+                    vals = bvals.get(k, ENGINE_SETTINGS[engine].get(k))
+                    if vals and k != 'auto_assign_tags':
+                        part1[k] = vals[1] if cfg['root'][k] == vals[0] else vals[0]
+            pre_doc = {'my_val': 1}
+            if 'union' in shape:
+                pre_doc[tag_key_of(effective(nested if cfg['nested'] is not None else None, part1 or None))] = 'NT'
+            cfg['root_steps'] = {'part1': part1, 'part2': {k: cfg['root'][k] for k in cfg['root'] if k in later}, 'pre_doc': pre_doc}
     if lv['history'].startswith('other_root'):
         if lv['other'] == 'nometa' and engine != 'v1load':
             cfg['other'] = None
@@ -590,6 +615,9 @@ def uses_of_nested(cfg):
         out.append(('dump', cfg.get('other')))
     elif h == 'other_root_load':
         out.append(('load', cfg.get('other')))
+    if cfg.get('root_steps'):
+        # the root itself was used once with the other engine while only the first part of its Meta was bound
+        out.append(('load' if cfg['engine'] == 'dump' else 'dump', cfg['root_steps']['part1']))
     out.append(('dump' if cfg['engine'] == 'dump' else 'load', cfg['root']))
     return out
 
@@ -678,7 +706,8 @@ def run(ctx):
 
     # ---- model: behaviour vector per distinct (engine, root, nested, history) ----
     def mkey(c):
-        return json.dumps([c['engine'], c['root'], c['nested'], c.get('history'), c.get('other')], sort_keys=True)
+        return json.dumps([c['engine'], c['root'], c['nested'], c.get('history'), c.get('other'),
+                           (c.get('root_steps') or {}).get('part1')], sort_keys=True)
     triples, index = [], {}
     for c in cfgs:
         k = mkey(c)
